@@ -107,7 +107,7 @@ Theorem C10_combine_two_adds_allele_counts : forall (a : spec R) p q,
   (1 <= p <= length (sh a))%nat -> (1 <= q <= length (sh a))%nat -> p <> q ->
   let t0 := pred (Nat.min p q) in let t1 := pred (Nat.max p q) in
   let o := combine_two_pops p q a in
-  sh o = merge2 (fun x y => x + y - 1)%nat 0%nat t0 t1 (sh a) /\ fo o = false /\
+  sh o = merge2 (fun x y => x + y - 1)%nat 0%nat t0 t1 (sh a) /\ fo o = fo a /\
   ids o = option_map (merge2 (fun x y => (x ++ "+" ++ y)%string) EmptyString t0 t1) (ids a) /\
   (forall K, inr (sh o) K -> va o K = fiber_sum (sh a) (merge2 Nat.add 0%nat t0 t1) (va a) K /\
                              mk o K = is_corner (sh o) K || fiber_any (sh a) (merge2 Nat.add 0%nat t0 t1) (mk a) K) /\
@@ -126,7 +126,8 @@ Theorem C10_combine_pops_is_explicit_merge : forall (a : spec R) tc,
   (forall K, inr (sh o) K -> va o K = fiber_sum (sh a) (merge_idx t0 ts) (va a) K) /\
   total o = total a /\
   (forall l, ids a = Some l -> length l = length (sh a) -> ids o = Some (merge_labels t0 ts l)) /\
-  (ids a = None -> ids o = None).
+  (ids a = None -> ids o = None) /\
+  fo o = fo a.
 Proof. exact combine_pops_spec. Qed.
 Print Assumptions C10_combine_pops_is_explicit_merge.
 
@@ -179,7 +180,7 @@ Example C10_nonvacuous :
   total (scramble_unfolded false a) = 21.
 Proof. intros a.
   assert (T : total a = 21) by (unfold total; simpl; lra).
-  destruct (combine_pops_spec a [2; 1]%nat) as (_ & _ & E & L & _).
+  destruct (combine_pops_spec a [2; 1]%nat) as (_ & _ & E & L & _ & _).
   - repeat constructor; simpl; intuition lia.
   - discriminate.
   - repeat constructor; simpl; lia.
